@@ -802,12 +802,13 @@ static bool is_circle(const Array<Vec2> point_array, double tolerance, Vec2& cen
     double coef_m = 0;
     double res_a = 0;
     double res_b = 0;
+    // Work relative to the first point: squared lengths of absolute
+    // coordinates cancel catastrophically far from the origin.
     Vec2 ref = point_array[0];
-    double ref_length_sq = ref.length_sq();
     for (uint64_t i = 1; i <= CIRCLE_DETECTION_LSQ_COEFFICIENTS; i++) {
         uint64_t j = i * (point_array.count - 1) / CIRCLE_DETECTION_LSQ_COEFFICIENTS;
         Vec2 ab = 2 * (point_array[j] - ref);
-        double r = point_array[j].length_sq() - ref_length_sq;
+        double r = (point_array[j] - ref).length_sq();
         coef_a += ab.x * ab.x;
         coef_b += ab.y * ab.y;
         coef_m += ab.x * ab.y;
@@ -816,8 +817,8 @@ static bool is_circle(const Array<Vec2> point_array, double tolerance, Vec2& cen
     }
     double den = coef_a * coef_b - coef_m * coef_m;
     if (fabs(den) < GDSTK_PARALLEL_EPS) return false;
-    center.x = (coef_b * res_a - coef_m * res_b) / den;
-    center.y = (coef_a * res_b - coef_m * res_a) / den;
+    center.x = ref.x + (coef_b * res_a - coef_m * res_b) / den;
+    center.y = ref.y + (coef_a * res_b - coef_m * res_a) / den;
     // printf("Center: (%lf, %lf)\n", center.x, center.y);
 
     radius = 0;
